@@ -11,6 +11,9 @@ def main():
         C.build_harness("main")
         if os.path.isdir(C.HARNESS_ASYNC):
             C.build_harness("async")
+        # the async-io build of the library lives in its own target directory; building it here keeps the
+        # first quick run of C04 / C17 / C20 after a fresh restore short
+        C.build_harness("main", bins=["asyncx", "transport"], features="async", target="target-async")
     except C.ToolError as e:
         print("setup: %s" % e)
         return 2
